@@ -5,11 +5,14 @@ MODES = [(("exact",), [1.0, 2.5]), (("tau_fixed", 0.4), [1.0, 2.5]),
          (("tau_adaptive", 0.3), [0.5, 1.2]), (("tau_adaptive", 0.03), [0.04, 0.1])]
 
 
-def gather_defs(seeds, bound, keep=None, **genkw):
+def gather_defs(seeds, bound, keep=None, **genkw0):
     """all distinct definitions within `bound` named-choice edits of each seed"""
     defs = {}
     nexec = 0
     for sname in seeds:
+        genkw = dict(genkw0)
+        if sname == "HYBRID":
+            genkw["hybrid"] = True
         ov, _ = gen.seed(gen.seed_values(sname), stochastic=True, **genkw)
 
         def on_def(o, pts, d, sname=sname):
@@ -17,24 +20,43 @@ def gather_defs(seeds, bound, keep=None, **genkw):
                 return
             k = gen.canon(d)
             if k not in defs:
-                defs[k] = (sname, d, sum(1 for n_ in o if o[n_]) if False else len(o))
-        nexec += gen.explore(ov, bound, lambda ch: gen.gen_model(ch, stochastic=True, **genkw), on_def)
+                defs[k] = (sname, d, len(o))
+        nexec += gen.explore(ov, bound, lambda ch, genkw=genkw: gen.gen_model(ch, stochastic=True, **genkw), on_def)
     out = [(sname, d) for _k, (sname, d, _n) in sorted(defs.items())]
     return out, nexec
 
 
-def l2_configs(defs, tier, modes=None, all_x0=None, seeds_only_names=None):
+NEAR_T = {"exact": 2 * stoch.sched.EXP_MENU[0] * (1 + 2e-7), "tau_fixed": 0.8 * (1 + 2e-7)}
+
+
+def l2_configs(defs, tier, modes=None, all_x0=None, near=False):
     out = []
     for i, (sname, d) in enumerate(defs):
         ns = len(d["states"])
         x0s = stoch.X0S[ns] if (tier == "thorough" or all_x0) else stoch.X0S[ns][:1]
+        x0s = [stoch.legal_x0(d, x0) for x0 in x0s]
+        xb = boundary_x0(d)
+        if xb is not None and xb not in x0s:
+            x0s.append(xb)
         for x0 in x0s:
-            x0 = stoch.legal_x0(d, x0)
             for mode, Ts in (modes or MODES):
-                for T in (Ts if tier == "thorough" else Ts[:1]):
+                Ts = list(Ts if tier == "thorough" else Ts[:1])
+                if near and mode[0] in NEAR_T:
+                    # a horizon a hair beyond a time the all-default execution lands on
+                    Ts.append(NEAR_T[mode[0]])
+                for T in Ts:
                     name = "%s#%d/%s/x0=%s/T=%s" % (sname, i, "-".join(map(str, mode)), x0, T)
                     out.append(stoch.Config(d, stoch.theta_for(d), x0, T, mode, name=name))
     return out
+
+
+def boundary_x0(d):
+    """a start state sitting on every declared upper limit (None when no upper limit)"""
+    lims = d.get("limits") or []
+    if not any(l is not None and l[1] is not None for l in lims):
+        return None
+    base = stoch.legal_x0(d, stoch.X0S[len(d["states"])][0])
+    return [int(l[1]) if (l is not None and l[1] is not None) else b for l, b in zip(lims, base)]
 
 
 def l1_jobs(defs, tier, cap=None):
@@ -43,7 +65,10 @@ def l1_jobs(defs, tier, cap=None):
     for i, (sname, d) in enumerate(defs):
         ns = len(d["states"])
         ne = len(d["events"])
-        x0 = stoch.legal_x0(d, stoch.X0S[ns][0])
+        x0 = [stoch.legal_x0(d, stoch.X0S[ns][0])]
+        xb = boundary_x0(d)
+        if xb is not None and xb not in x0:
+            x0.append(xb)
         pois = (0, 1, 2, 7) if ne <= 3 else (0, 1, 7)
         tms = [("tau_fixed", 0.4), ("tau_adaptive", 0.3)] if ne <= 3 else [("tau_fixed", 0.4)]
         jobs.append(("%s#%d" % (sname, i), d, stoch.theta_for(d), x0, cap, tms, pois))
